@@ -98,7 +98,8 @@ def profiles_for(pid, tier):
                 ("ints", dict(base, int_ids=True, w_add=16, w_open=12), N(40, 300)),
                 ("shared-ids", dict(base, apps=["a", "b"], shared_mailbox_ids=True, client_mailboxes=["m1", "m2"], w_add=16,
                                     w_open=14, w_claim=2, w_allocate=0), N(80, 600))],
-        "C02": [("bulk-apps", dict(_special="bulk-apps"), N(1, 3)),
+        "C02": [("rescued-idle", dict(_special="rescued-idle"), N(30, 200)),
+                ("bulk-apps", dict(_special="bulk-apps"), N(1, 3)),
                 ("bulk-subscribed", dict(_special="bulk", mode="subscribed"), N(1, 4)),
                 ("lookalike", dict(look, w_add=18, w_open=12, w_reconnect=6, w_restart=1), N(80, 600)),
                 ("general", dict(three, w_add=18, w_open=12, w_reconnect=8, w_sweep=4, w_restart=2), N(160, 1500)),
@@ -108,7 +109,11 @@ def profiles_for(pid, tier):
                                        w_bigjump=0), N(160, 1500)),
                 ("shared-ids", dict(base, apps=["a", "b"], shared_mailbox_ids=True, client_mailboxes=["m1", "m2"], w_add=16,
                                     w_open=14, w_claim=2, w_allocate=0), N(80, 600))],
-        "C03": [("claim-sweep-boundary", dict(_special="claim-sweep-boundary"), N(60, 400)),
+        "C03": [("rescued-idle", dict(_special="rescued-idle"), N(30, 200)),
+                ("long-idle", dict(base, n_ops=30, apps=["a"], sides=["s1", "s2"], names=["1"], client_mailboxes=["m1"], w_claim=10, w_open=10,
+                               w_sweep=14, w_bigjump=10, w_add=1, w_release=1, w_close=1, w_drop=1, w_reconnect=2, w_allocate=0,
+                               w_malformed=0), N(80, 600)),
+                ("claim-sweep-boundary", dict(_special="claim-sweep-boundary"), N(60, 400)),
                 ("lookalike", dict(look, w_claim=16, w_release=8, w_close=6, w_restart=2), N(80, 600)),
                 ("general", dict(three, w_claim=16, w_release=8, w_close=8, w_restart=2, w_sweep=3, names=["1", "2", "7"]), N(200, 2000)),
                 ("late-claim", dict(_special="late-claim"), N(30, 200)),
@@ -163,7 +168,8 @@ def profiles_for(pid, tier):
                 ("small-world", dict(base, n_ops=60, apps=["a"], sides=["s1", "s2"], names=["1"], client_mailboxes=["m1"],
                                      w_open=14, w_close=12, w_add=8, w_reconnect=12, w_drop=6, w_claim=3, w_allocate=0,
                                      w_release=2, w_sweep=7, w_bigjump=5, w_restart=4), N(160, 1500))],
-        "C12": [("bulk-apps", dict(_special="bulk-apps"), N(1, 3)),
+        "C12": [("rescued-idle", dict(_special="rescued-idle"), N(30, 200)),
+                ("bulk-apps", dict(_special="bulk-apps"), N(1, 3)),
                 ("claim-sweep-boundary", dict(_special="claim-sweep-boundary"), N(40, 300)),
                 ("lookalike", dict(look, w_sweep=6, w_bigjump=4, w_add=10, w_open=10), N(60, 400)),
                 ("bulk-subscribed", dict(_special="bulk", mode="subscribed"), N(1, 4)),
@@ -303,6 +309,35 @@ def special_history(pid, profile, seed):
             h += [{"op": "connect", "c": c},
                   {"op": "recv", "c": c, "t": now + 2, "msg": {"type": "bind", "appid": app, "side": sd}},
                   {"op": "recv", "c": c, "t": now + 2, "msg": {"type": "claim", "nameplate": name}, "fresh": "mbB"}]
+        return h, {}
+    if kind == "rescued-idle":
+        # a claimant stays connected, subscribed and silent across SEVERAL expiry periods: every sweep must keep its channel
+        # (the first one rescues it through its listener, the later ones must still see that listener), and whoever claims
+        # the nameplate or opens the mailbox afterwards meets it there
+        exp, per = info()["expirationTicks"], info()["periodTicks"]
+        t = 8000
+        usage = r.random() < 0.5
+        h = [{"op": "cfg", "rebooted": t, "usage": usage, "allow_list": True, "blur": None}]
+        app, name = r.choice(["a", "b"]), r.choice(["4", "x"])
+        h += [{"op": "connect", "c": 1},
+              {"op": "recv", "c": 1, "t": t + 1, "msg": {"type": "bind", "appid": app, "side": "s1"}},
+              {"op": "recv", "c": 1, "t": t + 2, "msg": {"type": "claim", "nameplate": name}, "fresh": "mbA"},
+              {"op": "recv", "c": 1, "t": t + 3, "msg": {"type": "open", "mailbox": "mbA"}},
+              {"op": "recv", "c": 1, "t": t + 4, "msg": {"type": "add", "phase": "pake", "body": "aa"}}]
+        now = t + 4
+        leaves = r.random() < 0.25            # control: the claimant leaves, then the channel may expire
+        for k in range(r.choice([2, 3, 4])):
+            now += exp + r.choice([1, 8, per, per + 3])
+            if leaves and k == 1:
+                h.append({"op": "drop", "c": 1})
+            h.append({"op": "sweep", "now": now, "fault": False})
+        if r.random() < 0.3:
+            h.append({"op": "recv", "c": 1, "t": now + 1, "msg": {"type": "add", "phase": "late", "body": "bb"}})
+        h += [{"op": "connect", "c": 2},
+              {"op": "recv", "c": 2, "t": now + 2, "msg": {"type": "bind", "appid": app, "side": "s2"}},
+              {"op": "recv", "c": 2, "t": now + 3, "msg": {"type": "claim", "nameplate": name}, "fresh": "mbB"},
+              {"op": "recv", "c": 2, "t": now + 4, "msg": {"type": "open", "mailbox": r.choice(["mbA", "mbA", "mbB"])}},
+              {"op": "recv", "c": 2, "t": now + 5, "msg": {"type": "add", "phase": "pake", "body": "cc"}}]
         return h, {}
     if kind == "bulk-apps":
         # more than a thousand OTHER apps come and go while app "b" has a silent subscriber: its namespace, its
